@@ -14,7 +14,7 @@ Definition run_c (o : opts) (body : bytes) : bytes * bytes :=
   end.
 
 (** case kind T: a TCP session = its connection attempts in order.  The number before ':' is the
-    scripted peer's event type: 3 = the attempt is refused; 2 / 7 = bytes then a reset (read error);
+    scripted peer's event type: 3 / 8 = the attempt is refused (8: for minutes); 2 / 7 = bytes then a reset (read error);
     anything else = bytes (possibly none) then a clean close or a connection that stays open.
     Observation = the retry pauses after each attempt, then the final table. *)
 Fixpoint num_of (l : bytes) (acc : N) : N :=
@@ -27,7 +27,7 @@ Definition tcp_event (s : bytes) : conn_event :=
   match split_on 58 s [] with
   | ty :: rest :: _ =>
       let k := num_of ty 0 in
-      if k =? 3 then Refused
+      if (k =? 3) || (k =? 8) then Refused
       else Delivered (seg_bytes rest) (negb ((k =? 2) || (k =? 7)))
   | _ => Delivered [] true
   end.
@@ -39,12 +39,45 @@ Definition run_t (o : opts) (body : bytes) : bytes * bytes :=
   | Panic _ => (str "panic", [])
   end.
 
+(** case kind D: the history of kind H, observed through the row renderer: after every segment each row is shown
+    as the table line the program would print at that moment (blanks written as '_'); the -i letters select the
+    column groups, the reader itself stays quiet *)
+Definition dump_disp (o : opts) (now : Z) (t : table) : bytes :=
+  join [124] (map (fun '(k, r) =>
+                     kv "key" (hex6 k)
+                     ++ kv "disp" (map (fun c => if c =? 32 then 95 else c) (render_row o now (fun _ => str "?????") r)))
+                  (sort_table t)).
+
+Fixpoint run_segs_d (o : opts) (t : table) (segs : list bytes) (acc : list bytes) : bool * list bytes :=
+  match segs with
+  | [] => (true, rev_append acc [])
+  | s :: rest =>
+      match s with
+      | [] => run_segs_d o t rest acc
+      | _ =>
+        match split_on 58 s [] with
+        | ts :: body :: _ =>
+            let now := parse_z ts in
+            match read_lines o now t (seg_bytes body) with
+            | Ok t' => run_segs_d o t' rest (dump_disp o now t' :: acc)
+            | Panic _ => (false, rev_append acc [])
+            end
+        | _ => run_segs_d o t rest acc
+        end
+      end
+  end.
+
+Definition run_d (o : opts) (body : bytes) : bytes * bytes :=
+  let '(ok, ds) := run_segs_d o [] (split 59 body) [] in
+  (if ok then str "ok" else str "panic", join [35] ds).
+
 Definition run_case2 (line : bytes) : bytes :=
   match split 9 line with
   | id :: kind :: os :: body :: _ =>
       match kind with
       | [67] => let '(oc, obs) := run_c (parse_opts os) body in id ++ [9] ++ oc ++ [9] ++ obs
       | [84] => let '(oc, obs) := run_t (parse_opts os) body in id ++ [9] ++ oc ++ [9] ++ obs
+      | [68] => let '(oc, obs) := run_d (parse_opts os) body in id ++ [9] ++ oc ++ [9] ++ obs
       | _ => run_case line
       end
   | _ => []
